@@ -33,29 +33,31 @@ type CallSpec struct {
 }
 
 type FuncSpec struct {
-	Key       string // "(*DBFT).checkCommit", "emptyReusableSlice"
-	Extern    bool
-	Pure      bool // extern only: result is a function of receiver+args, no effects
-	Requires  []*Clause
-	Assumes   []*Clause // assumptions at entry that callers need not establish (named assumptions only; listed in evidence)
-	Ensures   []*Clause
-	Modifies  []string // location patterns; "*" = everything
-	ModTags   []string
-	HasMod    bool
-	Inline    bool
-	Trusted   string
-	Loops     map[int]*LoopSpec
-	AtCall    map[string]*CallSpec // key "callee" or "callee#n"
-	Ghosts    []*Clause            // executed at the call (extern) or at exit (func)
-	Wraps     map[string]bool      // operator texts where wrap-around is intended
-	WrapsIf   map[string]ast.Expr  // operator text -> condition under which the result is in range (assumption)
-	NoPanic   []string             // tags override for run-time checks
-	File      string
-	Line      int
-	Params    []string // extern: parameter names for use in clauses
-	Results   []string
-	MayPanic  bool
-	Terminate bool // extern: never returns (e.g. Logger.Fatal)
+	Key          string // "(*DBFT).checkCommit", "emptyReusableSlice"
+	Extern       bool
+	Pure         bool // extern only: result is a function of receiver+args, no effects
+	Requires     []*Clause
+	Assumes      []*Clause // assumptions at entry that callers need not establish (named assumptions only; listed in evidence)
+	Ensures      []*Clause
+	Modifies     []string // location patterns; "*" = everything
+	ModTags      []string
+	HasMod       bool
+	Inline       bool
+	Trusted      string
+	Loops        map[int]*LoopSpec
+	AtCall       map[string]*CallSpec // key "callee" or "callee#n"
+	LoopCountSet bool
+	LoopCount    int                 // "loops N": the number of loops the function had when the contract was written (0 = not stated)
+	Ghosts       []*Clause           // executed at the call (extern) or at exit (func)
+	Wraps        map[string]bool     // operator texts where wrap-around is intended
+	WrapsIf      map[string]ast.Expr // operator text -> condition under which the result is in range (assumption)
+	NoPanic      []string            // tags override for run-time checks
+	File         string
+	Line         int
+	Params       []string // extern: parameter names for use in clauses
+	Results      []string
+	MayPanic     bool
+	Terminate    bool // extern: never returns (e.g. Logger.Fatal)
 }
 
 type GhostDecl struct {
@@ -113,7 +115,7 @@ type WriterRule struct {
 	Line    int
 }
 
-var keywordRe = regexp.MustCompile(`^(requires|ensures|assume|modifies|bundle|use|axiom|inline|trusted|loop|at|ghost|wraps|func|pred|pure|extern|singleton|uses|receiver|alias|opaque|runtags|lemma|writers|callers|forbid|params|results|nopanic|terminates|maypanic|option)\b`)
+var keywordRe = regexp.MustCompile(`^(requires|ensures|assume|modifies|bundle|use|axiom|inline|trusted|loop|at|ghost|wraps|func|pred|pure|extern|singleton|uses|receiver|alias|opaque|runtags|lemma|writers|callers|forbid|params|results|nopanic|terminates|maypanic|option|loops)\b`)
 
 func newContracts() *Contracts {
 	return &Contracts{
@@ -390,6 +392,16 @@ func ParseContracts(file string, c *Contracts) error {
 				cur.Modifies = append(cur.Modifies, b.Modifies...)
 				cur.ModTags = append(cur.ModTags, b.ModTags...)
 			}
+		case "loops":
+			if cur == nil {
+				return fmt.Errorf("%s:%d: loops outside func", file, line)
+			}
+			n, err := strconv.Atoi(strings.TrimSpace(rest))
+			if err != nil {
+				return fmt.Errorf("%s:%d: loops N", file, line)
+			}
+			cur.LoopCount = n
+			cur.LoopCountSet = true
 		case "params":
 			if cur == nil {
 				return fmt.Errorf("%s:%d: params outside func", file, line)
